@@ -695,6 +695,17 @@ func runMP(c *engine.Ctx, prop string) {
 			New: func() (engine.Sys, error) { return newMPSys(cfg, fu, prop) }})
 		c.Bounds[name] = map[string]interface{}{"keys": fu.keys, "part_numbers": fu.partNums, "part_bodies": fu.bodies, "injected": "PutObject error during complete", "history_depth": d}
 	}
+	if prop == "C14" {
+		// the same environment answer with several uploads of one key pending: the
+		// upload whose complete failed keeps its place among them
+		cfg := drv.Config{Kind: drv.Mem, PutFault: true}
+		fu := &mpUniverse{keys: []string{"a"}, partNums: []int{1}, bodies: []string{"a"}, maxOpen: 3, maxInit: 3, maxParts: 1}
+		name := prop + "/mem/store-fault-among-siblings"
+		d := 6 // initiate x3, part, failed complete (+1: the state after it is checked)
+		engine.RunSeq(c, engine.SeqSpec{Name: name, World: "mem", MaxDepth: d,
+			New: func() (engine.Sys, error) { return newMPSys(cfg, fu, prop) }})
+		c.Bounds[name] = map[string]interface{}{"keys": fu.keys, "part_numbers": fu.partNums, "max_open_uploads": fu.maxOpen, "injected": "PutObject error during complete", "history_depth": d}
+	}
 }
 
 func init() {
